@@ -1,6 +1,6 @@
 (* C02 -- no request, however malformed, crashes the service or disturbs other requests.
    Only property theorems here, each closed by `exact <lemma>`; proofs are in Proofs*.v, the model in Defs.v. *)
-From CppcmsV Require Import Base.Tac Base.CSem C02.Defs C02.Proofs C02.Proofs2 C02.Proofs3 C02.Proofs4 C02.Proofs5 C02.Link gen.Gen_c02proto.
+From CppcmsV Require Import Base.Tac Base.CSem Base.Sweep C02.SMapDefs C02.SMapProofs C02.SMapProofs2 C02.SPool C02.Defs C02.Proofs C02.Proofs2 C02.Proofs3 C02.Proofs4 C02.Proofs5 C02.Link gen.Gen_c02proto gen.Gen_c02smap.
 Local Open Scope Z_scope.
 
 (* 1. declared length arithmetic: atoll is a saturating signed 64-bit value; a negative declared length is rejected
@@ -281,4 +281,158 @@ Example segmentation_nonvacuous :
      when a further read boundary falls after byte 16385, because the limit is tested after each read *)
   let big := ([71;69;84;32;47;115;121;110;99;32;72;84;84;80;47;49;46;48;13;10;88;58;32]%N ++ repeat 97%N 16400 ++ [13;10;13;10]%N) in
   fst (http_run [big]) = [IOk AppSync] /\ fst (http_run [firstn 16385 big; firstn 10 (skipn 16385 big); skipn 16395 big]) = [IEnd].
+Proof. vm_compute. repeat split. Qed.
+
+(* 14. connection::env_ = string_map (private/string_map.h), the open-addressing table with linear probing in which every front
+       end stores the CGI variables of a request and in which the framework and the application look up present AND absent
+       names in the event-loop thread ("the event loop keeps running"): for every sequence of add() and clear() on a fresh table
+       (any number of variables, any names incl. duplicates and colliding hashes)
+         - the load factor stays at most 1/2, so there is always an empty slot;
+         - neither the probe loop of insert() nor the rehash of add() runs without end (smap_run never yields None);
+         - get() of any name, present or absent, ends within data_.size() probes (the fuel of the model never runs out);
+         - get() answers exactly spec_get: the first entry with that name in insertion order into the current table, where
+           every growth (33rd, 65th, 129th ... add) reverses that order because the rehash walks the chain newest first; hence a
+           name added once is found with its value, a name never added is absent, and on a table that has not grown
+           (at most 32 variables) the FIRST add of a duplicated name wins;
+         - begin()..end() lists every entry exactly once, in reverse insertion order into the current table.
+       The growth test, the new size, the initial size, the probe start / step expressions and the hash are the expressions of
+       the current source (Link lemmas over coq/gen/Gen_c02smap.v). *)
+Theorem string_map_load_factor : forall ops m, smap_run ops smap_empty = Some m ->
+  (total m * 2 <= cap m)%nat /\ exists p, (p < cap m)%nat /\ slot (slots m) p = None.
+Proof. exact smap_load_factor. Qed.
+Print Assumptions string_map_load_factor.
+Theorem string_map_add_never_loops : forall ops, exists m, smap_run ops smap_empty = Some m.
+Proof. exact smap_run_total. Qed.
+Print Assumptions string_map_add_never_loops.
+Theorem string_map_get_terminates : forall ops m k, smap_run ops smap_empty = Some m -> smap_get m k <> GHang.
+Proof. exact smap_get_terminates. Qed.
+Print Assumptions string_map_get_terminates.
+Theorem string_map_get_answer : forall ops m k, smap_run ops smap_empty = Some m -> smap_get m k = spec_get ops k.
+Proof. exact smap_get_spec. Qed.
+Print Assumptions string_map_get_answer.
+Theorem string_map_absent_name_is_absent : forall ops m k, smap_run ops smap_empty = Some m ->
+  (forall k2 v2, In (SAdd k2 v2) ops -> k2 <> k) -> smap_get m k = GAbsent.
+Proof. exact smap_get_absent. Qed.
+Print Assumptions string_map_absent_name_is_absent.
+Theorem string_map_name_added_once_is_found : forall pre0 pre post k v m,
+  (pre0 = [] \/ exists x, pre0 = x ++ [SClear]) -> (forall k2 v2, In (SAdd k2 v2) (pre ++ post) -> k2 <> k) -> ~ In SClear post ->
+  smap_run (pre0 ++ pre ++ SAdd k v :: post) smap_empty = Some m -> smap_get m k = GFound v.
+Proof. exact smap_get_unique. Qed.
+Print Assumptions string_map_name_added_once_is_found.
+Theorem string_map_first_add_wins_up_to_32 : forall m k v pre post,
+  let ops := map (fun kv => SAdd (fst kv) (snd kv)) (pre ++ (k, v) :: post) in
+  (length (pre ++ (k, v) :: post) <= 32)%nat -> (forall kv, In kv pre -> fst kv <> k) ->
+  smap_run ops smap_empty = Some m -> smap_get m k = GFound v.
+Proof. exact smap_get_first_add_small. Qed.
+Print Assumptions string_map_first_add_wins_up_to_32.
+Theorem string_map_iteration : forall ops m, smap_run ops smap_empty = Some m ->
+  smap_iter m = map Some (rev (snd (spec_run ops initial_cap []))).
+Proof. exact smap_iter_spec. Qed.
+Print Assumptions string_map_iteration.
+(* the same for the environment of a request as the front-end models of Defs.v use it (env_get = smap_get on env_map): every look-up
+   ends; it answers spec_get of the adds of the request; for at most 32 variables that is the association list in which the first
+   pair of a name wins (the environment model of the earlier rounds, right exactly up to the first growth) *)
+Theorem request_environment_lookup_terminates : forall e k, smap_get (env_map e) k <> GHang.
+Proof. exact env_lookup_ends. Qed.
+Print Assumptions request_environment_lookup_terminates.
+Theorem request_environment_lookup_answer : forall e k,
+  smap_get (env_map e) k = spec_get (map (fun kv => SAdd (fst kv) (snd kv)) e) k.
+Proof. exact env_lookup_spec. Qed.
+Print Assumptions request_environment_lookup_answer.
+Theorem request_environment_is_first_wins_list_up_to_32 : forall e k, (length e <= 32)%nat ->
+  smap_get (env_map e) k = match alist_get e k with Some v => GFound v | None => GAbsent end.
+Proof. exact env_lookup_small. Qed.
+Print Assumptions request_environment_is_first_wins_list_up_to_32.
+(* what the oracles of the check demand of the implementation (a look-up answers with a value that was added for exactly that name
+   since the last clear; "absent" only for a name not added since the last clear), proved of the model *)
+Theorem string_map_lookup_answers_an_added_value : forall ops m k v, smap_run ops smap_empty = Some m -> smap_get m k = GFound v ->
+  exists e, In e (since_clear ops []) /\ ekey e = k /\ evalue e = v.
+Proof. exact get_found_was_added. Qed.
+Print Assumptions string_map_lookup_answers_an_added_value.
+Theorem string_map_absent_answer_is_sound : forall ops m k, smap_run ops smap_empty = Some m -> smap_get m k = GAbsent ->
+  forall e, In e (since_clear ops []) -> ekey e <> k.
+Proof. exact get_absent_not_added. Qed.
+Print Assumptions string_map_absent_answer_is_sound.
+(* the load factor is not only sufficient: on a table without an empty slot get() of a name that is not in it never ends, whatever
+   the number of steps (GHang for every fuel) *)
+Theorem string_map_full_table_get_never_ends : forall fuel d h k pos,
+  (forall p, (p < length d)%nat -> exists e, slot d p = Some e /\ entry_matches e h k = false) ->
+  (pos < length d)%nat -> get_loop fuel d h k pos = GHang.
+Proof. exact full_table_get_never_ends. Qed.
+Print Assumptions string_map_full_table_get_never_ends.
+Example string_map_full_table_nonvacuous :
+  (* 64 entries inserted into the 64 slots without growth (what total_ >= data_.size() as growth test would do): every slot is
+     occupied and the look-up of an absent name runs out of 3000 steps *)
+  let key := fun i : nat => [72; 95; N.of_nat (48 + Nat.div i 10)%nat; N.of_nat (48 + Nat.modulo i 10)%nat]%N in
+  match insert_all (repeat None 64%nat) (map (fun i => entry_of (key i) []) (seq 0%nat 64%nat)) with
+  | Some d => (forallb (fun s => match s with Some _ => true | None => false end) d,
+               get_loop 3000%nat d (smap_hash [90%N]) [90%N] (start_pos (smap_hash [90%N]) 64%nat),
+               get_loop 3000%nat d (smap_hash (key 7%nat)) (key 7%nat) (start_pos (smap_hash (key 7%nat)) 64%nat))
+  | None => (false, GAbsent, GAbsent)
+  end = (true, GHang, GFound []).
+Proof. vm_compute. reflexivity. Qed.
+(* tie T: the leafs of the model are the expressions of the current source *)
+Theorem string_map_growth_test_is_source : forall total size : nat, Z.of_nat total < 2 ^ 63 ->
+  g_c02_grow (Z.of_nat total) (Z.of_nat size) = grow_needed total size.
+Proof. exact link_grow_needed. Qed.
+Print Assumptions string_map_growth_test_is_source.
+Theorem string_map_sizes_are_source : (forall size : nat, Z.of_nat size < 2 ^ 63 -> g_c02_newsize (Z.of_nat size) = Z.of_nat (size * 2)) /\
+  g_c02_init_ctor = Z.of_nat initial_cap /\ g_c02_init_clear = Z.of_nat initial_cap.
+Proof. split; [exact link_new_size|exact link_initial_size]. Qed.
+Print Assumptions string_map_sizes_are_source.
+Theorem string_map_probe_sequence_is_source : forall (h : N) (pos size : nat), (h < 4294967296)%N -> (pos < size)%nat -> Z.of_nat size < 2 ^ 31 ->
+  g_c02_ins_start (Z.of_N h) (Z.of_nat size) = Z.of_nat (start_pos h size) /\ g_c02_get_start (Z.of_N h) (Z.of_nat size) = Z.of_nat (start_pos h size) /\
+  g_c02_ins_next (Z.of_nat pos) (Z.of_nat size) = Z.of_nat (next_pos pos size) /\ g_c02_get_next (Z.of_nat pos) (Z.of_nat size) = Z.of_nat (next_pos pos size).
+Proof.
+  intros h pos size Hh Hp Hs. destruct (link_start_pos h size Hh ltac:(lia) Hs) as [A B]. destruct (link_next_pos pos size Hp Hs) as [C D].
+  repeat split; assumption.
+Qed.
+Print Assumptions string_map_probe_sequence_is_source.
+Theorem string_hash_is_source : forall k, bytes_ok k ->
+  fold_left (fun h b => g_c02_update_state h (wraps 8 (Z.of_N b))) k g_c02_initial_state = Z.of_N (smap_hash k).
+Proof. exact link_smap_hash. Qed.
+Print Assumptions string_hash_is_source.
+Example string_map_nonvacuous :
+  let key := fun i : nat => [72; 95; N.of_nat (48 + Nat.div i 10)%nat; N.of_nat (48 + Nat.modulo i 10)%nat]%N in
+  let adds := fun n => map (fun i => SAdd (key i) [N.of_nat i]) (seq 0%nat n) in
+  let dup := [SAdd (key 3%nat) [200%N]] in
+  (* 32 variables: no growth, 64 slots, the first add of the duplicated name wins *)
+  match smap_run (adds 31%nat ++ dup) smap_empty with Some m => (cap m, total m, smap_get m (key 3%nat), smap_get m (key 77%nat)) | None => (O, O, GHang, GHang) end
+    = (64, 32, GFound [3%N], GAbsent)%nat /\
+  (* 33 variables: grown to 128 slots and now the LATER add wins (the rehash walked the chain newest first) *)
+  match smap_run (adds 31%nat ++ dup ++ [SAdd (key 40%nat) []]) smap_empty with Some m => (cap m, total m, smap_get m (key 3%nat), smap_get m (key 77%nat)) | None => (O, O, GHang, GHang) end
+    = (128, 33, GFound [200%N], GAbsent)%nat /\
+  (* 65 variables: second growth, the order is reversed again *)
+  match smap_run (adds 31%nat ++ dup ++ adds 33%nat) smap_empty with Some m => (cap m, total m, smap_get m (key 3%nat), spec_get (adds 31%nat ++ dup ++ adds 33%nat) (key 3%nat)) | None => (O, O, GHang, GHang) end
+    = (256, 65, GFound [3%N], GFound [3%N])%nat /\
+  (* exactly 64 variables (the count at which a table growing only when full would have no empty slot left) *)
+  match smap_run (adds 64%nat) smap_empty with Some m => (cap m, total m, smap_get m (key 77%nat), length (smap_iter m)) | None => (O, O, GHang, O) end
+    = (128, 64, GAbsent, 64)%nat /\
+  (* two names with the same 32-bit hash (CONTENT_LENGTH and CONTENT_LENGSX) are told apart by the key comparison *)
+  smap_hash [67;79;78;84;69;78;84;95;76;69;78;71;84;72]%N = smap_hash [67;79;78;84;69;78;84;95;76;69;78;71;83;88]%N /\
+  match smap_run [SAdd [67;79;78;84;69;78;84;95;76;69;78;71;83;88]%N [53%N]] smap_empty with
+  | Some m => smap_get m [67;79;78;84;69;78;84;95;76;69;78;71;84;72]%N | None => GHang end = GAbsent /\
+  smap_run [SAdd [65%N] []; SClear; SAdd [66%N] [49%N]] smap_empty <> None.
+Proof. vm_compute. repeat split; discriminate. Qed.
+
+(* 15. the strings behind the table: scgi / fastcgi store key and value of every variable in connection::pool_ (string_pool) and
+       hand the pointers to env_.add; every front end resets both together.  For every sequence of "variable" / "reset" operations,
+       every entry the table can answer a get() with or list in a walk has its key and its value, NUL included, in an allocation made
+       since the last reset that lies inside its page of the current pool; after a reset there is no entry, no live allocation, the
+       pool is the initial one-page pool and the table is the initial table (nothing points into a freed page). *)
+Theorem env_strings_live_in_pool : forall ops e,
+  In e (snd (spec_run (e_ops (erun ops)) initial_cap [])) -> stored (erun ops) (ekey e) /\ stored (erun ops) (evalue e).
+Proof. exact env_entries_live_in_pool. Qed.
+Print Assumptions env_strings_live_in_pool.
+Theorem env_reset_leaves_nothing_behind : forall ops,
+  let c := erun (ops ++ [EReset]) in
+  e_live c = [] /\ e_pool c = pool0 /\ snd (spec_run (e_ops c) initial_cap []) = [] /\ smap_run (e_ops c) smap_empty = Some smap_empty.
+Proof. exact env_reset_is_fresh. Qed.
+Print Assumptions env_reset_leaves_nothing_behind.
+Example env_pool_nonvacuous :
+  (* a 1500-byte value gets a page of its own, the next short strings go on in the first page; after the reset one page is left *)
+  let c := erun [EVar [65%N] (repeat 66%N 1500); EVar [67%N] [68%N]] in
+  map fst (e_live c) = [(0%nat, 0%N, 2%N); (1%nat, 0%N, 1501%N); (0%nat, 2%N, 2%N); (0%nat, 4%N, 2%N)] /\ pages (e_pool c) = [1501; 2048]%N /\
+  length (snd (spec_run (e_ops c) initial_cap [])) = 2%nat /\
+  pages (e_pool (erun [EVar [65%N] (repeat 66%N 1500); EReset])) = [2048%N].
 Proof. vm_compute. repeat split. Qed.
